@@ -525,6 +525,20 @@ class Ref:
         inn = st.get('in')
         if inn:
             self.ctx.update(inn)
+        desc = st.get('description')
+        if desc:
+            # a step with a description formats it and evaluates run (and skip when run is true) once up
+            # front, for the log: an error there ends the step at once - not recorded, not swallowed,
+            # not retried, the in-arguments still in context
+            def unrecorded(fn):
+                try:
+                    return fn()
+                except StepError as e:
+                    e.recorded = True
+                    raise
+            unrecorded(lambda: self.fmt(desc))
+            if unrecorded(lambda: self.truth(st.get('run', True))):
+                unrecorded(lambda: self.truth(st.get('skip', False)))
         w = st.get('while')
         if not w:
             self.foreach(st, loc)
@@ -613,7 +627,7 @@ def prepare(case):
                     continue
                 if st.get('in') is not None:
                     d['in'] = {k: pv.to_py(v) for k, v in st['in']}
-                for k in ('foreach', 'run', 'skip', 'swallow', 'onError'):
+                for k in ('foreach', 'run', 'skip', 'swallow', 'onError', 'description'):
                     if k in st:
                         d[k] = pv.to_py(st[k])
                 for k in ('while', 'retry'):
